@@ -181,7 +181,10 @@ func (term *TermCondBr) Operands() []*value.Value {
 func (term *TermCondBr) LLString() string {
 	// 'br' CondTyp=IntType Cond=Value ',' TargetTrue=Label ',' TargetFalse=Label Metadata=(',' MetadataAttachment)+?
 	buf := &strings.Builder{}
-	fmt.Fprintf(buf, "br %s, %s, %s", term.Cond, term.TargetTrue, term.TargetFalse)
+	// Note: the grammar requires an integer type (CondTyp=IntType); a branching
+	// condition of a named i1 type (e.g. `%bool = type i1`) is thus printed as
+	// i1.
+	fmt.Fprintf(buf, "br %s %s, %s, %s", types.I1, term.Cond.Ident(), term.TargetTrue, term.TargetFalse)
 	for _, md := range term.Metadata {
 		fmt.Fprintf(buf, ", %s", md)
 	}
